@@ -37,7 +37,7 @@ type Spec struct {
 	Ctrs    []int    `json:"ctrs,omitempty"`
 	PodsRLE [][2]int `json:"pods_rle,omitempty"` // [count, padding] runs, expanded into Pods on load
 	CtrsRLE [][2]int `json:"ctrs_rle,omitempty"`
-	Plugin  string   `json:"plugin"` // raw | stub
+	Plugin  string   `json:"plugin"` // raw | stub | stubnh (a real stub.Stub around a plugin without a Synchronize handler)
 	// Code: the kind of error the scripts err and errfinal answer with: "" (a plain Go error, gRPC code
 	// Unknown on the wire) | resource_exhausted | unavailable | internal (a gRPC status of that code).
 	// Once: errfinal fails only the FIRST message not flagged More (stub: the first invocation of the
@@ -412,6 +412,19 @@ func (p *stubPlugin) Synchronize(_ context.Context, pods []*api.PodSandbox, ctrs
 	return updates(r.sp.NUpd), nil
 }
 
+// eventsOnlyPlugin implements an event handler and nothing else: a real stub.Stub around it has no
+// Synchronize handler (Spec.Plugin "stubnh").
+type eventsOnlyPlugin struct{ rec *recorder }
+
+func (p *eventsOnlyPlugin) RunPodSandbox(_ context.Context, pod *api.PodSandbox) error {
+	if pod.GetId() == "probe" {
+		p.rec.Lock()
+		p.rec.probe = true
+		p.rec.Unlock()
+	}
+	return nil
+}
+
 func (p *stubPlugin) RunPodSandbox(_ context.Context, pod *api.PodSandbox) error {
 	if pod.GetId() == "probe" {
 		p.rec.Lock()
@@ -440,7 +453,11 @@ func startStub(sock, name string, rec *recorder) (func(), error) {
 		}
 		return method(ctx, um)
 	}
-	st, err := stub.New(&stubPlugin{rec: rec},
+	var plugin interface{} = &stubPlugin{rec: rec}
+	if rec.sp.Plugin == "stubnh" {
+		plugin = &eventsOnlyPlugin{rec: rec} // no Synchronize handler: the stub answers the messages itself
+	}
+	st, err := stub.New(plugin,
 		stub.WithSocketPath(sock), stub.WithPluginName(name), stub.WithPluginIdx("10"),
 		stub.WithOnClose(func() {}),
 		stub.WithTTRPCOptions(nil, []ttrpc.ServerOpt{ttrpc.WithUnaryServerInterceptor(icpt)}))
@@ -606,7 +623,7 @@ func runSeq(dir string, k int, specs []*Spec) ([]*Obs, error) {
 			name = fmt.Sprintf("%s%d", sp.Plugin, j+1)
 		}
 		var stop func()
-		if sp.Plugin == "stub" {
+		if sp.Plugin == "stub" || sp.Plugin == "stubnh" {
 			stop, err = startStub(sock, name, rec)
 		} else {
 			stop, err = startRaw(sock, name, rec)
